@@ -168,3 +168,30 @@ add("C11",
     "references and which may run Python code is trusted.",
     "Lean 4 proof (soundness of two static checks) + translation of the C / Python sources into the checked IR each run + re-entrancy injection on the real code", "6/C11",
     engine="lean4+translation")
+# --- entries revised after the walk theorems were re-proved on the registry model that the correspondence validates
+add("C04",
+    "Theorems on the registry model that is compared with the real code every run (ZI.Registry.lookupRec over depth-indexed containers, uncachedLookup over "
+    "`ro`): lookupRec_eq_first (the nested _lookup walk with its `if comps:` short-cuts = first hit over the applicable paths enumerated in lexicographic order of "
+    "positions in the resolution orders, then the extendors order), mem_rpaths (a path is applicable iff every required key is in the __sro__ of the corresponding "
+    "looked-up specification and the provided key is an extendor), C04_sound, C04_complete (default iff nothing applicable), C04_best (every path before the "
+    "winner has nothing under the name), rpaths_first_position (the enumeration IS lexicographic), C04_chain (first registry of `ro` with an answer wins). Every "
+    "implementation answer is also judged by an independent flat-specification oracle.",
+    "stated_not_proved: the extendors-order invariant ('more general provided interface first among comparable ones') preserved by add_extendor / remove_extendor, "
+    "and the lift through the cache (C05). None keys are registered as Interface (convNone), which C03_valid puts in every __sro__.",
+    "Lean 4 proof (nested walk = lexicographic argmin over applicable paths, chain order) + differential correspondence + flat-specification oracle", "6/C04")
+add("C07",
+    "Theorems on the validated registry model: subsRec_eq_concat / C07_multiset (the _subscriptions walk returns exactly the concatenation of the leaf lists — each "
+    "in subscription order, nothing dropped or duplicated — over the applicable paths in REVERSED lexicographic order), C07_order_first_position (everything reached "
+    "through a later element of the first __sro__ precedes everything reached through an earlier one: less specific first), find_update / find_remove (what "
+    "subscribe / unsubscribe do to the containers). The multiset, the three ordering clauses and unsubscribe semantics are judged by the flat oracle on every "
+    "answer; a world stream re-checks subscriptions() / subscribers() against a never-queried twin after declaration and hierarchy changes.",
+    "stated_not_proved: order across the registries of `ro` (base registries first) and C07_unsubscribe at World level — evaluated by the oracle.",
+    "Lean 4 proof (walk = ordered concatenation over applicable paths) + differential correspondence + flat oracle + never-queried-twin stream", "6/C07")
+add("C08",
+    "Theorems on the validated registry model: lookupAllRec_get / C08_lookupAll (for every name, what the reversed _lookupAll walk with dict.update binds it to is "
+    "exactly what the forward _lookup walk returns for that name; a name is absent exactly when lookup returns the default), with get?_foldl_set and "
+    "foldl_reverse_overlay (folding overlays over a reversed enumeration lets the FIRST forward binding win). lookup1 / queryAdapter / adapter_hook / "
+    "queryMultiAdapter / names / subscribers are defined in the model through lookup / lookupAll / subscriptions and are called cold and warm in random order on "
+    "both twins, compared with the model and cross-checked against each other.",
+    "stated_not_proved: agreement of the object-level entry points in every cache state as a theorem (needs the C05 refinement).",
+    "Lean 4 proof (lookupAll = name-indexed family of lookup answers) + differential correspondence + cross-entry-point oracle", "6/C08")
